@@ -168,28 +168,32 @@ def finishDelete (st : St) (o : Obj) (thr : Option Key) : St × Bool :=
 /-- `Service::GetByNamePair`: what a new Comment/Downtime/Notification/Dependency for that service finds. -/
 def St.resolvesService (st : St) (k : Key) : Bool := st.hostServices.contains k
 
-/-- one child of the loop over the dependents: the helper's result is ignored; a child that an earlier
-    sibling's cascade already removed is a no-op. -/
-def deleteChild (rec : St → Obj → St) (s : St) (c : Key) : St :=
-  match s.find c with
-  | some co => rec s co
-  | none => s
+/-- the loop over the dependents (configobjectutility.cpp:351-357, after 0ce9ca7): the helper is called for one
+    dependent after the other; the first call that FAILS ends the loop and the failure is passed on (before
+    0ce9ca7 the result was ignored: F-C17j).  A dependent that an earlier sibling's cascade already removed is a
+    no-op. -/
+def deleteChildren (rec : St → Obj → St × Bool) : List Key → St → St × Bool
+  | [], s => (s, true)
+  | c :: cs, s =>
+    match s.find c with
+    | some co => if (rec s co).2 then deleteChildren rec cs (rec s co).1 else ((rec s co).1, false)
+    | none => deleteChildren rec cs s
 
 /-- `DeleteObjectHelper`.  `busy` = `l_DeletionInProgress` (after 6a109cb): the objects whose deletion is
     under way further up the call stack; an object met again (it depends on itself, directly or
     through others) is not visited a second time.  The guard sits AFTER the refusal of a
-    non-cascading delete with dependents.  Fuel bounds the recursion depth (every level adds a new
-    object to `busy`, so the number of objects plus one is enough). -/
+    non-cascading delete with dependents.  A dependent that could not be deleted (its deactivation threw) still
+    refers to the object: the object is left alone and failure is reported (0ce9ca7).  Fuel bounds the recursion
+    depth (every level adds a new object to `busy`, so the number of objects plus one is enough). -/
 def deleteHelper : Nat → St → Obj → Bool → List Key → Option Key → St × Bool
-  | 0, st, o, _, _, thr => finishDelete st o thr
+  | 0, st, o, _, busy, thr => if busy.contains o.key then (st, true) else finishDelete st o thr
   | f + 1, st, o, cascade, busy, thr =>
     let ch := children st o.key
     if !ch.isEmpty && !cascade then (st, false)
     else if busy.contains o.key then (st, true)
     else
-      -- the result of the helper for a dependent is IGNORED (configobjectutility.cpp:351-353): F-C17j
-      let st1 := ch.foldl (deleteChild (fun s co => (deleteHelper f s co cascade (o.key :: busy) thr).1)) st
-      finishDelete st1 o thr
+      let r := deleteChildren (fun s co => deleteHelper f s co cascade (o.key :: busy) thr) ch st
+      if r.2 then finishDelete r.1 o thr else (r.1, false)
 
 /-- `DeleteObject` for an existing object.  `thr`: see `finishDelete`. -/
 def deleteObject (st : St) (k : Key) (cascade : Bool) (thr : Option Key := none) : St × Res :=
